@@ -7,6 +7,7 @@ to the non-null columns of K when the first solver call fails, modes scattered b
 stacked on top.
 """
 from ..poly import P
+from ..pycheck import keep_matrix as _keep_matrix
 from .. import pysym, shims, absnp, eigctx
 from ..pysym import real, integer, to_z3, SymRaise
 from ..absnp import AArr, T
@@ -21,7 +22,7 @@ def mk():
     log = []
     eigctx.install(it, log)
     it.algebraic_minmax = True
-    it.contracts['scipy.sparse.csr_matrix'] = lambda itp, a, kw: a[0]
+    it.contracts['scipy.sparse.csr_matrix'] = _keep_matrix
     return it, log
 
 
